@@ -263,14 +263,15 @@ def build_model(prop, timeout=900):
 # --------------------------------------------------------------------------
 _harness_built = {}
 
-def build_harness(crate="harness", timeout=3000):
+def build_harness(crate="harness", timeout=3000, target=None):
+    """target: optional CARGO_TARGET_DIR of a plugin's own harness crate (plugin.TARGET_DIR); default: the shared one"""
     if crate in _harness_built:
         return _harness_built[crate]
     d = os.path.join(ROOT, crate)
     lock = os.path.join(d, "Cargo.lock")
     if not os.path.exists(lock) or os.path.getmtime(lock) < os.path.getmtime("/repo/Cargo.lock"):
         pass  # keep our own lock: it is a superset resolved offline once (see harness/README)
-    env = {"RUSTFLAGS": "--cfg %s" % GUARD, "RUSTC_BOOTSTRAP": "1", "CARGO_TARGET_DIR": TARGET}
+    env = {"RUSTFLAGS": "--cfg %s" % GUARD, "RUSTC_BOOTSTRAP": "1", "CARGO_TARGET_DIR": target or TARGET}
     rc, out = run(["cargo", "build", "--offline", "--quiet"], cwd=d, timeout=timeout, env=env)
     ok = rc == 0
     _harness_built[crate] = (ok, out[-6000:])
